@@ -24,7 +24,7 @@ from fractions import Fraction
 
 from hypothesis import strategies as st
 
-from pbt.gen.c19_model import recip
+from pbt.gen.c19_model import recip, Unrenderable
 
 # (token, sign, line, octave_change)
 CLEFS = [("*clefG2", "G", 2, 0), ("*clefF4", "F", 4, 0), ("*clefC3", "C", 3, 0), ("*clefC4", "C", 4, 0), ("*clefGv2", "G", 2, -1),
@@ -60,11 +60,13 @@ options = st.fixed_dictionaries(
         "instrument": st.booleans(),
         "met": st.booleans(),
         "ext": st.sampled_from([".krn", ".krn", ".kern", ".KRN"]),
+        # through load_score (reader picked from the extension) or through load_kern itself, with its documented parameters
+        "loader": st.sampled_from(["load_score", "load_score", "load_score", "load_kern", "load_kern-force-same-part", "load_kern-force-note-ids"]),
     }
 )
 
 
-LATER_OPTIONS = {"tie_over_grace": False, "sub_leading_grace": False, "sub_midbar": 0}
+LATER_OPTIONS = {"tie_over_grace": False, "sub_leading_grace": False, "sub_midbar": 0, "loader": "load_score"}
 
 
 def kern_pitch(step, alter, octave, natural):
@@ -83,8 +85,13 @@ def kern_pitch(step, alter, octave, natural):
 
 def recip_token(sym):
     r, dots = recip(sym)
+    if r == Fraction(1, 2):
+        return "0" + "." * dots  # breve
+    if r == Fraction(1, 4):
+        return "00" + "." * dots  # long
     if r.denominator != 1:
-        raise AssertionError("harness: non integral reciprocal %r" % (sym,))
+        # e.g. a quintuplet of whole notes (5/4 of a whole): plain reciprocals cannot say it
+        raise Unrenderable("value without an integral reciprocal %r" % (sym,))
     return "%d%s" % (r.numerator, "." * dots)
 
 
@@ -130,7 +137,8 @@ def render(model, opt):
                     ev["graces"] = [{"id": "lg%d" % k, "kind": "grace", "step": "D", "alter": 0, "octave": 4, "sym": {"type": "eighth"}}]
     n = len(spines)
     mode = opt["mode"]
-    same_part = mode in ("same-part", "same-instrument")
+    # load_kern(force_same_part=True) puts all spines into one part whatever the file says
+    same_part = mode in ("same-part", "same-instrument") or opt.get("loader") == "load_kern-force-same-part"
     counters = {"nat": 0}
 
     # ---- ties that the reader documents to understand ----------------------------------------------------
@@ -464,8 +472,22 @@ def render(model, opt):
         "kept_ties": len(tie_ok),
         "ties_over_grace": len(over_grace),
         "final_barline": opt["final_barline"] != "none",
+        "has_breve_or_long": any(e["sym"]["type"] in ("breve", "long") for col in seq.values() for e in col),
+        # a column whose reciprocals have the least common multiple 3 (whole notes and half-note triplets only)
+        "recip_lcm_three": any(_lcm([recip(e["sym"])[0] for e in col]) == 3 for col in seq.values() if col),
     }
     return text, expected
+
+
+def _lcm(values):
+    from math import gcd
+
+    out = 1
+    for v in values:
+        if v.denominator != 1:
+            return None
+        out = out * int(v) // gcd(out, int(v))
+    return out
 
 
 def spine_events_cached(model, spines, k, b):
